@@ -11,4 +11,6 @@ def run(ctx):
                 "1-5 subchannels, rates n/d incl. x/3, x/7, x/1001 and primes near 2^32, cadences down to 1-2 samples per file, "
                 "gapped / continuous / compressed, start 1980-2100) x rf_write / rf_write_blocks histories x reads on all "
                 "file, block and gap edges; values are a keyed PRF of the absolute index over the full element range",
-           observe_pairs=ctx.pick(30, 45), capi_every=3)
+           observe_pairs=ctx.pick(30, 45), capi_every=3,
+           # several channels of one rate and different cadences written and read by one process
+           extra=lambda c, drf: cc.multi_writer_histories(c, drf, c.pick(8, 150), npairs=8, nvec=2)[0])
